@@ -304,3 +304,43 @@ Definition c04_hist_case (N : nat) (s0 : cfs) (h : list call) (after : option cf
   let s := run_calls h s0 in
   (c04_corr_case N (cf_dd s) (cf_dr s) (cf_rd s) (cf_rr s) impl
    + 8 * code [ match after with Some a => cfs_eqb s a | None => false end ])%nat.
+
+(* ------------------------------------------------ magnitudes (C04) *)
+(* CorrFunc.sample chooses the estimator on which pair counts are PRESENT (rr is not None), never
+   on their values: normalised terms are pair fractions and may be of any magnitude (1e-12 for a
+   wide survey and a small scale cut, 1e+9 for tiny weights), and may be exactly zero in some bins.
+   A common factor of all terms: *)
+Definition oscaleq (c : Q) (x : option Q) : option Q := option_map (Qmult c) x.
+(* A different implementation, for contrast (Proofs: thr_fallback_agrees_above, thr_fallback_refuted):
+   an rr whose absolute value does not exceed eps is treated as absent (np.allclose(rr, 0) has
+   eps = 1e-8).  It agrees with the code on every input whose rr exceeds eps. *)
+Definition estimate_thr (eps : Q) (dd : Q) (dr rd rr : option Q) : Q :=
+  match rr with
+  | Some r => if Qleb (Qabs r) eps then estimate dd dr rd None else estimate dd dr rd rr
+  | None => estimate dd dr rd None
+  end.
+
+(* diagnosis of a wrong value: rr is present, the output is not the estimator of the code where
+   that is defined, but it is - in every bin where that is defined, and it is somewhere - the
+   estimator the code applies when rr is absent *)
+Definition res_defined (m : res) : bool := snd (fst m).
+Definition ignores_rr (dd : pc) (dr rd rr : option pc) (data : list oq) : bool :=
+  match rr with
+  | None => false
+  | Some _ =>
+      let alt := corr_data dd dr rd None in
+      (is_some dr || is_some rd)
+      && negb (res_list_ok tol48 (corr_data dd dr rd rr) data)
+      && existsb res_defined alt && res_list_ok tol48 alt data
+  end.
+Definition ignores_rr_flag (dd : pc) (dr rd rr : option pc) (impl : option (list oq * list (list oq))) : bool :=
+  match impl with Some (data, _) => negb (ignores_rr dd dr rd rr data) | None => true end.
+(* c04_corr_case / c04_hist_case with bit 4: the value does not ignore a present rr *)
+Definition c04_corr_case_x (N : nat) (dd : pc) (dr rd rr : option pc)
+           (impl : option (list oq * list (list oq))) : nat :=
+  (c04_corr_case N dd dr rd rr impl + 16 * code [ ignores_rr_flag dd dr rd rr impl ])%nat.
+Definition c04_hist_case_x (N : nat) (s0 : cfs) (h : list call) (after : option cfs)
+           (impl : option (list oq * list (list oq))) : nat :=
+  let s := run_calls h s0 in
+  (c04_hist_case N s0 h after impl
+   + 16 * code [ ignores_rr_flag (cf_dd s) (cf_dr s) (cf_rd s) (cf_rr s) impl ])%nat.
